@@ -10,7 +10,7 @@ import (
 // ---------------------------------------------------------------------------
 // C13 — L2 validator set in state equals what consensus was told
 
-var applyPO = PO{Params: []string{"k", "ctx"}, Visits: 3,
+var applyPO = PO{Params: []string{"k", "ctx"}, Visits: 3, OpaqueSorters: true,
 	NoInline: []string{"getLastValidatorsByAddr", "GetAllValidators", "sortNoLongerBonded", "mustGetValidator", "Keeper).RemoveValidator", "SetLastValidatorPower", "DeleteLastValidatorPower", "ABCIValidatorUpdate"},
 	Pure:     []string{"ABCIValidatorUpdate"}}
 
@@ -46,8 +46,8 @@ func purgeObligation(c *Ctx, rule, key string) {
 	fn := c.Method(childKeeper, "Keeper", "ApplyAndReturnValidatorSetUpdates")
 	o5 := c.Ob(rule, key)
 	allV := "(opchild/keeper.Keeper).GetAllValidators(k, ctx).0"
-	lastM := "(opchild/keeper.Keeper).getLastValidatorsByAddr(k, ctx).0"
 	for _, p := range c.Paths(fn, applyPO) {
+		lastM := lastMapOn(p)
 		o5.Paths++
 		o5.Facts += p.NFacts()
 		// R5: per visited record with power <= 0
@@ -96,8 +96,9 @@ func purgeObligation(c *Ctx, rule, key string) {
 // whichever receiver / parameters it has.
 func fromSortedLast(c *Ctx, src *Term, lastM string) bool {
 	ok := false
+
 	src.Walk(func(x *Term) bool {
-		if ok || x.Op != "call" || !strings.Contains(x.Name, "opchild/keeper") {
+		if ok || x.Op != "call" || !strings.Contains(x.Name, "opchild/") {
 			return !ok
 		}
 		takesLast := false
@@ -120,6 +121,52 @@ func fromSortedLast(c *Ctx, src *Term, lastM string) bool {
 		return !ok
 	})
 	return ok
+}
+
+// lastMapOn: the Go map holding the previous block's bonded powers on this path: the map the
+// first loop probes with a stored validator's operator address - whether it came from a helper
+// (getLastValidatorsByAddr) or was built inline from a walk.
+func lastMapOn(p *Path) string {
+	found := ""
+	scan := func(t *Term) {
+		t.Walk(func(x *Term) bool {
+			if found == "" && x.Op == "lookup" && len(x.Args) == 2 && strings.HasSuffix(x.Args[1].Key(), ".OperatorAddress") {
+				found = x.Args[0].Key()
+			}
+			return found == ""
+		})
+	}
+	for i := range p.Events {
+		ev := &p.Events[i]
+		if ev.Kind == EvFact && ev.Cond != nil {
+			scan(ev.Cond)
+		}
+		if ev.Call != nil {
+			scan(ev.Call)
+		}
+		if found != "" {
+			return found
+		}
+	}
+	// no stored validator was probed on this path: the map the walk over the last powers fills
+	for i := range p.Events {
+		if ev := &p.Events[i]; ev.Kind == EvMapUpdate && ev.Place != nil {
+			return ev.Place.Key()
+		}
+	}
+	// ... or, with an empty last-power set, the one map-typed local handed to a module call
+	for i := range p.Events {
+		ev := &p.Events[i]
+		if ev.Call == nil || !strings.Contains(ev.Call.Name, "opchild/") {
+			continue
+		}
+		for _, a := range ev.Call.Args {
+			if a.Op == "make" && a.Name == "map" {
+				return a.Key()
+			}
+		}
+	}
+	return "(opchild/keeper.Keeper).getLastValidatorsByAddr(k, ctx).0"
 }
 
 func propC13(c *Ctx) {
@@ -351,9 +398,9 @@ func propC13(c *Ctx) {
 		o := c.Ob("C13.R4", "ApplyAndReturnValidatorSetUpdates: every update told to consensus is recorded (and vice versa)")
 		purgeObligation(c, "C13.R5", "ApplyAndReturnValidatorSetUpdates: a record with power <= 0 is purged now or is in the last-power set")
 		allV := "(opchild/keeper.Keeper).GetAllValidators(k, ctx).0"
-		lastM := "(opchild/keeper.Keeper).getLastValidatorsByAddr(k, ctx).0"
 		nOK := 0
 		for _, p := range c.Paths(fn, applyPO) {
+			lastM := lastMapOn(p)
 			o.Paths++
 			o.Facts += p.NFacts()
 			if !p.OK() || p.Panic {
